@@ -475,7 +475,7 @@ pub fn main(args: &[String]) {
     let dir = format!("{}/u{}", dir, shard);
     std::fs::create_dir_all(&dir).unwrap();
     let mut w = std::io::BufWriter::new(std::fs::File::create(&outp).expect("trace"));
-    let mut pool = Pool { w: None, timeout: Duration::from_secs(8) };
+    let mut pool = Pool { w: None, timeout: Duration::from_secs(30) };
     let mut nrun = 0u64;
     let mut ncase = 0u64;
     let mut unit_counter = 0usize; // global work-item counter for sharding
@@ -513,7 +513,7 @@ pub fn main(args: &[String]) {
             }
         }
         a.extend(extra.iter().cloned());
-        let (r, code) = cli_run(&bita, &a, None, Duration::from_secs(10));
+        let (r, code) = cli_run(&bita, &a, None, Duration::from_secs(30));
         let od = std::fs::read(&op).unwrap_or_default();
         let created = std::path::Path::new(&op).exists();
         for p in [&ap, &op, &sp] {
